@@ -15,6 +15,7 @@ type Witness struct {
 	Engine    string   `json:"engine"`
 	Policy    string   `json:"policy"`
 	Batch     bool     `json:"one_apply_batch,omitempty"`
+	Proto     bool     `json:"protocol_path,omitempty"`
 	Signature string   `json:"signature"`
 	FailingOp string   `json:"failing_op"`
 	FailAt    int      `json:"failing_index"`
